@@ -305,13 +305,18 @@ def default_plan(tier, scale=1.0):
     def H(start, *steps):
         return dict(start=(list(start[0]), start[1]), steps=list(steps))
     reg_blockdep = [H(((1, 48, 48, 8), "int8"), a, "conv3x3v_relu6", "dw3x3s2") for a in ("dw3x3s2", "maxpool2x2")]
-    reg_tilepad = [H(st, "resize_bl2_hp") for st in (((1, 8, 8, 8), "int8"), ((1, 7, 33, 3), "uint8"), ((1, 8, 8, 32), "uint8"))]
+    reg_tilepad = [H(st, "resize_bl2_hp") for st in (((1, 8, 8, 8), "int8"), ((1, 7, 33, 3), "uint8"), ((1, 8, 8, 32), "uint8"), ((1, 16, 4, 8), "int8"), ((1, 9, 3, 16), "int16"))]
+    reg_tilepad += [H(((1, 12, 4, 8), "int8"), "conv1x1", "resize_bl2_hp"), H(((1, 12, 4, 8), "int8"), "resize_bl2_hp", "conv1x1")]  # taller than wide: the interleaved row writes end at the top of the tensor
     reg_upcascade = [H(((1, 16, 16, 16), "int8"), a, "resize_nn2") for a in ("relu", "conv3x3", "add_const")] + [H(((1, 7, 33, 3), "uint8"), "conv1x1", "resize_nn2")]
     reg_iface = [H(((1, 33, 7, 40), "int8"), "argmax"), H(((1, 33, 7, 40), "int8"), "argmax64"), H(((1, 1, 1, 32), "int8"), "resize_nn2_ac"), H(((1, 1, 1, 32), "int8"), "resize_bl2_ac")]
+    # rarely combined command-line options (lattice cO) on networks with CPU-resident weighted operators (asymmetric int8 weights), taps and tables
+    opt_hist = [h for h in (H(st, *steps) for st in nets.STARTS_Q[:2] for steps in (
+        ["cpu_dw_s4_asym"], ["cpu_conv_s4_asym"], ["conv3x3", "cpu_dw_s4_asym"], ["cpu_conv_s4_asym", "conv1x1"], ["conv3x3", "dw3x3"], ["cpu_neg", "tap", "conv3x3"],
+        ["logistic", "conv1x1"], ["conv3x3s2", "add_const", "maxpool2x2"])) if nets.build(h, 0) is not None]
     if tier == "quick":
-        return [("G1xC8", nets.STARTS_Q, nets.SIGMA_Q, 1, "c8"),
+        return [("G1xC8", nets.STARTS_Q, nets.SIGMA_Q, 1, "c8"), ("optionsxCO", opt_hist, "cO"),
                 ("resizefirstxCR", resize_first, "cR"),
-                ("bigweightsxCW", histories(heavy, heavy_ops, 1) + histories(heavy[:1], heavy_ops, 2), "cW"),
+                ("bigweightsxCW", histories(heavy + [((1, 8, 8, 64), "int8")], heavy_ops + ["dw3x3", "dw5x5v"], 1) + histories(heavy[:1], heavy_ops, 2) + [H(((1, 4, 4, 128), "int8"), "conv1x1_c40", "dw3x3")], "cW"),
                 ("G2xC1", nets.STARTS_Q[:2], nets.SIGMA_Q, 2, "c2"),
                 ("fork3xC2", fork_histories(nets.STARTS_Q[:2], nets.SIGMA_C + ["cpu_neg"], mids, nets.SIGMA_C + ["cpu_neg"]), "c2"),
                 ("cpualias4xC2", cpualias, "c2"),
@@ -319,9 +324,9 @@ def default_plan(tier, scale=1.0):
                 ("regblockdepxCP", reg_blockdep, "cP"), ("regtilepadxC8", reg_tilepad, "c8"), ("regupcascadexC8", reg_upcascade, "c8"), ("regifacexC2", reg_iface, "c2"),
                 ("geometryxC1", geometry_histories(tier), "c1"), ("geometry2xC1", geometry2_histories(tier), "c1"), ("geometry3xC1", geometry3_histories(tier), "c1"), ("geometry4xC1", geometry4_histories(tier), "c1"), ("geometry5xC1", geometry5_histories(tier), "c1"), ("rareopsxC2", rareops_histories(tier), "c2"),
                 ("perfcascade3xCP", histories(big, perf_ops, 3), "cP")]
-    return [("G1xC24", nets.STARTS_T, nets.SIGMA_T, 1, "c24"),
+    return [("G1xC24", nets.STARTS_T, nets.SIGMA_T, 1, "c24"), ("optionsxCO", opt_hist, "cO"),
             ("resizefirstxCR", resize_first + [dict(start=([1, 16, 16, 8], "int8"), steps=h["steps"]) for h in resize_first], "cR"),
-            ("bigweightsxCW", histories(heavy, heavy_ops, 1) + histories(heavy, heavy_ops, 2), "cW"),
+            ("bigweightsxCW", histories(heavy + [((1, 8, 8, 64), "int8")], heavy_ops + ["dw3x3", "dw5x5v"], 1) + histories(heavy, heavy_ops + ["dw3x3"], 2), "cW"),
             ("G2xC8", nets.STARTS_Q, nets.SIGMA_Q, 2, "c8"),
             ("chain3xC4", nets.STARTS_Q[:2], nets.SIGMA_C, 3, "c4"),
             ("perfcascade3xCP", histories(big + [((1, 48, 48, 8), "int8")], nets.SIGMA_C, 3), "cP"),
